@@ -315,6 +315,23 @@ func runC10(c *Ctx) {
 	}
 	rec("")
 	c.St.Exhaustive = append(c.St.Exhaustive, fmt.Sprintf("all %d strings of length 1..%d over {. # 0 1 a} on a fixed object and list", count, maxLen))
+	// long lists: indices around every power of two up to 2^16 (width slips in index parsing, size thresholds)
+	m.Case("long-lists")
+	long := m.NewListOf(gvInt(7), 66000)
+	holder := m.NewObject(gvStr("rows"), m.RefGV(long))
+	nestedLong := m.NewList(m.RefGV(long), m.RefGV(holder))
+	for k := uint(6); k <= 16; k++ {
+		for d := -1; d <= 1; d++ {
+			i := strconv.Itoa(1<<k + d)
+			c.readPath(long, "#"+i)
+			c.readPath(holder, ".rows#"+i)
+			c.readPath(nestedLong, "#0#"+i)
+			c.readPath(nestedLong, "#1.rows#"+i)
+		}
+	}
+	c.readPath(long, "#65999")
+	c.readPath(long, "#66000")
+	c.St.Eval("long-lists", true)
 	// the known finding K1: keys that begin with a sigil make an empty segment resolve
 	m.Case("k1-sigil-leaf")
 	k1 := m.NewObject(gvStr(".a"), gvInt(1), gvStr("#1"), gvInt(2), gvStr("n"), gvInt(3))
@@ -468,6 +485,20 @@ func runC11(c *Ctx) {
 			c.St.Eval(fmt.Sprintf("%d:%d:%s", i, s, path), strings.Count(path, ".")+strings.Count(path, "#") >= 2)
 		}
 	}
+	// writes and unsets at indices around powers of two (padding, growth steps, width slips)
+	m.Case("long-writes")
+	for k := uint(4); k <= 12; k++ {
+		l := m.NewList(gvInt(1), gvInt(2))
+		c.writePath(l, "#"+strconv.Itoa(1<<k), gvStr("v"))
+		c.writePath(l, "#"+strconv.Itoa(1<<k-1), gvStr("w"))
+		m.UnsetTF(l, "#"+strconv.Itoa(1<<k-1))
+		m.UnsetTF(l, "#"+strconv.Itoa(1<<k))
+		o := m.NewObject(gvStr("rows"), m.RefGV(l))
+		c.writePath(o, ".rows#"+strconv.Itoa(1<<k+1)+".k", gvInt(int(k)))
+		m.OUnsetTF(o, ".rows#"+strconv.Itoa(1<<k+1)+".k")
+		m.OUnsetTF(o, ".rows#0")
+	}
+	c.St.Eval("long-writes", true)
 	// the twelve cases of SetTF's intermediate handling, one by one
 	m.Case("twelve-cases")
 	for _, recvObj := range []bool{false, true} {
